@@ -445,12 +445,12 @@ def conelp(c, G, h, dims = None, A = None, b = None, primalstart = None,
     if not isinstance(RELTOL,(float,int,long)):
         raise ValueError("options['reltol'] must be a scalar")
 
-    if RELTOL <= 0.0 and ABSTOL <= 0.0 :
+    if not (RELTOL > 0.0 or ABSTOL > 0.0):
         raise ValueError("at least one of options['reltol'] and " \
             "options['abstol'] must be positive")
 
     FEASTOL = options.get('feastol',1e-7)
-    if not isinstance(FEASTOL,(float,int,long)) or FEASTOL <= 0.0:
+    if not isinstance(FEASTOL,(float,int,long)) or not FEASTOL > 0.0:
         raise ValueError("options['feastol'] must be a positive scalar")
 
     show_progress = options.get('show_progress', True)
@@ -1824,12 +1824,12 @@ def coneqp(P, q, G = None, h = None, dims = None, A = None, b = None,
     if not isinstance(RELTOL,(float,int,long)):
         raise ValueError("options['reltol'] must be a scalar")
 
-    if RELTOL <= 0.0 and ABSTOL <= 0.0 :
+    if not (RELTOL > 0.0 or ABSTOL > 0.0):
         raise ValueError("at least one of options['reltol'] and " \
             "options['abstol'] must be positive")
 
     FEASTOL = options.get('feastol',1e-7)
-    if not isinstance(FEASTOL,(float,int,long)) or FEASTOL <= 0.0:
+    if not isinstance(FEASTOL,(float,int,long)) or not FEASTOL > 0.0:
         raise ValueError("options['feastol'] must be a positive scalar")
 
     show_progress = options.get('show_progress',True)
